@@ -60,7 +60,7 @@ func sourceKey() string {
 		}
 		return strings.HasSuffix(p, ".go") || strings.HasSuffix(p, "go.mod") || strings.HasSuffix(p, "go.sum") || strings.HasSuffix(p, ".proto")
 	})
-	hashTree(h, verifDir, []string{"mc", "world", "checks", "cmd", "extra", "vp", "gen"}, func(p string) bool {
+	hashTree(h, verifDir, []string{"mc", "world", "checks", "cmd", "extra", "vp", "gen", "conformance"}, func(p string) bool {
 		return strings.HasSuffix(p, ".go")
 	})
 	for _, f := range []string{"go.mod", "go.sum"} {
